@@ -122,6 +122,8 @@ package dns
 
 //@ func DoH returns (m, err)
 //@   requires msg != nil
+//@   requires[names] forall(i, 0, len(msg.Question), labelsFit(msg.Question[i].Name), trig(msg.Question[i]))
+//@   requires[no-records] len(msg.Answer) == 0 && len(msg.Authority) == 0
 //@   modifies rpos, closed, reqcount(0)
 //@   allocates Message, retryablehttp.Request, http.Request, retryablehttp.Client, http.Response
 //@   ensures[F:one-request] reqcount(0) <= old(reqcount(0)) + 1 && (err == nil ==> reqcount(0) == old(reqcount(0)) + 1)
